@@ -80,7 +80,7 @@ NOT_APPLICABLE = {
     "C16": "labelled-graph matcher: no arithmetic for a solver, symbolic execution degenerates into one path per graph (4-atom probe not exhausted in 300 s); a direct SMT encoding would be a re-implementation (DESIGN.md 4)",
 }
 
-HOLD = {"C06", "C11", "C14"}  # claims written but not yet registered (not yet conclusive on the unchanged tree)
+HOLD = set()  # claims written but not yet registered (not yet conclusive on the unchanged tree)
 PENDING = "check under construction in this round; not claimed until it is conclusive on the unchanged tree"
 
 
